@@ -1313,7 +1313,7 @@ def check_c18(prop, tier, seed):
                 why.append('exact class: last bin is not exactly 1')
             if t['n'] <= 100 and t['apq'] != t['exq']:
                 why.append('n <= 100: approximate values differ from the exact ones')
-            if t['n'] >= 1000 and 0 <= t['a10'] <= 30 and ex:
+            if t['n'] >= 1000 and 0 <= t['a100'] <= 300 and ex:
                 j = max(range(len(ex)), key=lambda i: abs(ap[i] - ex[i]))
                 if abs(ap[j] - ex[j]) > 10737419:
                     why.append('|approx - exact| = %.5f at bin %d' % (abs(ap[j] - ex[j]) / one, ks[j]))
@@ -1326,7 +1326,7 @@ def check_c18(prop, tier, seed):
         violations.append({'desc': 'C18: the table driver crashed or timed out: ' + out[-300:], 'signature': ['crash'],
                            'replay': {'kind': 'zipf', 'seed': seed, 'tier': tier}})
     bins = sum(len(t['ks']) for t in tabs)
-    lawn = sum(1 for t in tabs if t['hasex'] and t['a10'] in (0, 10, 20, 30) and t['n'] <= 16)
+    lawn = sum(1 for t in tabs if t['hasex'] and t['a100'] in (0, 100, 200, 300) and t['n'] <= 16)
     cov = {'explanation': 'trace validation of recorded CDF tables against ZipfCdfTrace.tla: monotone exact table, last bin exactly 1 '
                           '(both classes, every n), approximate = exact bit for bit when n <= 100, |approx - exact| <= 0.01 when n >= 1000 '
                           'and 0 <= alpha <= 3 (every bin up to n = 5000, dense samples beyond), and Zipf\'s law itself recomputed by TLC in '
